@@ -21,8 +21,8 @@ PID = "C13"
 SHARDS = {"quick": 8, "thorough": 16}
 # generous: the per-case limit below is CPU time, so on a heavily loaded
 # machine a shard may need several times its idle wall time
-SHARD_TIMEOUT = {"quick": 900, "thorough": 3400}
-N_CASES = {"quick": 560, "thorough": 4000}
+SHARD_TIMEOUT = {"quick": 1800, "thorough": 10800}
+N_CASES = {"quick": 560, "thorough": 3600}
 N_DRAWS = {"quick": 8, "thorough": 25}
 N_COLD = {"quick": 10, "thorough": 64}
 
@@ -34,11 +34,21 @@ def new_run():
         "schema specs come from pvm.c13_gen: a witness value is chosen per field "
         "first and every check of the 0-3 long chain is drawn among checks the "
         "witness satisfies (satisfiable by construction; unique fields are asked "
-        "for at most as many rows as satisfying values are known), plus a family "
+        "for at most as many rows as satisfying values are known; ordered bounds "
+        "are put exactly on the zero of the dtype class 30% of the time, time "
+        "arguments are handed over as pandas / datetime / numpy objects; custom "
+        "checks: element-wise, vectorised, aggregates that hold for every subset "
+        "(all) and aggregates whose verdict depends on WHICH elements are present "
+        "(count, nunique, any, mean - also on nullable fields and frame-wide), "
+        "factory-made check+strategy closures (between, multiple-of)), SEQUENCES "
+        "in one process (a schema followed by 1-2 siblings made by the same "
+        "factories with other parameters, or the same schema object asked for "
+        "another size), plus a family "
         "of contradictory chains / over-constrained unique fields, a family of "
         "simple cases executed in FRESH interpreters (nothing validated before "
         "strategy() is called) and a fixed directed corpus (one tiny case per "
-        "call site known to emit invalid data). One evaluation = one case; every "
+        "call site known to emit invalid data or sensitive to the order of the "
+        "strategy's steps; two entries are sequences). One evaluation = one case; every "
         "draw of the case is validated by the producing schema (a rejection is "
         "confirmed on a pristine equal schema). "
         "non-trivial = at least one draw was returned and judged (or, for the "
@@ -48,6 +58,9 @@ def new_run():
          "hypothesis 6.168 generate phase only, explicit seeds, no database",
          "acceptance is judged by the producing schema's own validate(lazy=True)",
          "a strategy that raises on a satisfiable schema is counted as not decided",
+         "followers of a sequence are only executed when their leader produced "
+         "draws; state carried between schemas is only observed within one "
+         "shard process, in generation order",
          "a case whose hypothesis run exceeds 3 s (quick) / 8 s (thorough) of CPU "
          "time is cut off at the next example attempt; what was drawn until then "
          "is judged",
@@ -450,6 +463,17 @@ def classify(case, fl, d):
     # Index / MultiIndex strategies
     if k in ("c_vec", "c_agg") and in_index:
         return "index_strategy-no-fallback-for-vectorised-check"
+    if k == "c_aggn":
+        # the "failure case" of an aggregate is the scalar False: none of the
+        # value-based rules below applies
+        return None
+
+    # ne / notin filter the elements (numpy scalars) with python's != / not in
+    # against the values as the user wrote them; a datetime.datetime /
+    # datetime.timedelta never compares equal to a numpy [ns] scalar
+    if k in ("ne", "notin") and chk.get("as") == "py" and cls in ("dt", "td"):
+        if all(any(_same(v, e) for e in _args_of(chk)) for v in vals):
+            return f"{k}_strategy-python-time-value-never-equals-numpy-element"
 
     shifted = cls == "dt" and G.tz_of(f["dtype"]) not in (None, "UTC") and via_numpy_column
 
@@ -477,7 +501,10 @@ def classify(case, fl, d):
     if k in ("str_startswith", "str_endswith") and _is_special(a["string"]):
         pat = rf"\A(?:{a['string']})" if k == "str_startswith" else rf"(?:{a['string']})\Z"
         try:
-            if all(isinstance(v, str) and re.search(pat, v) for v in vals):
+            # (numpy '<U' storage drops trailing NULs: the value that matched
+            # may have been v + NULs)
+            if all(isinstance(v, str) and any(re.search(pat, v + "\x00" * n) for n in range(4))
+                   for v in vals):
                 return f"{k}_strategy-literal-not-escaped"
         except re.error:
             pass
@@ -656,6 +683,25 @@ def count_case_classes(run, case, prefix):
                 run.count(f"order:{a['k']}>{b['k']}")
         if f.get("regex"):
             run.count(f"{prefix}regex_column")
+        for c in f["checks"]:
+            if c.get("as"):
+                run.count(f"{prefix}time_argument_given_as:{c['as']}:{c['k']}")
+            if c["k"] in ("gt", "ge", "lt", "le", "in_range") and f["cls"] in G.ORDERED:
+                z = G.zero_of(f["cls"], f["dtype"])
+                if any(_same(G.dec(x), z) for n, x in c["a"].items()
+                       if n in ("min_value", "max_value")):
+                    run.count(f"{prefix}bound_on_zero:{f['cls']}")
+                    run.count(f"{prefix}bound_on_zero:{f['cls']}:{c['k']}")
+            if c["k"] == "c_strat":
+                run.count(f"{prefix}factory_check_with_strategy:{c['a']['fn']}:"
+                          f"{'element_wise' if c['a'].get('ew') else 'vectorised'}")
+            if c["k"] == "c_aggn":
+                run.count(f"{prefix}aggregate:{c['a']['fn']}")
+                if f["nullable"] and G.supports_nulls(f) and case["size"] != 0:
+                    run.count(f"{prefix}aggregate_over_nullable_field")
+                    run.count(f"{prefix}aggregate_over_nullable_field:{case['kind']}")
+    if case.get("follows"):
+        run.count(f"{prefix}follower:{case['follows']}")
     if case.get("df_checks"):
         run.count(f"{prefix}with_df_checks")
         for c in case["df_checks"]:
@@ -668,12 +714,44 @@ def count_case_classes(run, case, prefix):
         run.count(f"{prefix}df_dtype")
 
 
-def one_case(run, case, hseed, n, verbose=False, limit=None, cold=False):
+def run_sequence(run, cases, hseeds, n, verbose=False, limit=None, replaying=None):
+    """the cases one after the other in this process; a follower of kind
+    "resize" asks the SAME schema object again, the others build their own.
+    replaying: Run that receives the LAST case only (the others go to ``run``)"""
+    prelude, schema = [], None
+    for j, (case, hseed) in enumerate(zip(cases, hseeds)):
+        if prelude and not LAST.get("draws") and replaying is None:
+            # the leader gave nothing to look at (raised / ran out of time):
+            # its followers would only repeat that
+            run.count("sequences:followers_skipped(leader_without_draws)")
+            break
+        last = replaying is not None and j == len(cases) - 1
+        reuse = schema if case.get("follows") == "resize" else None
+        LAST.clear()
+        schema = one_case(replaying if last else run, case, hseed, n,
+                          verbose=verbose and (last or replaying is None), limit=limit,
+                          schema=reuse, prelude=list(prelude))
+        prelude.append([case, hseed])
+
+
+LAST = {}       # what the most recent one_case() of this process saw
+
+
+def one_case(run, case, hseed, n, verbose=False, limit=None, cold=False, schema=None,
+             prelude=None):
+    """-> the schema object the case was executed with (None: not built)"""
+    _one_case(run, case, hseed, n, verbose, limit, cold, schema, prelude, out := [])
+    return out[0] if out else None
+
+
+def _one_case(run, case, hseed, n, verbose, limit, cold, schema, prelude, out):
     key = canon_hash([case, "C13", cold])
     fam = case["family"]
     P = "cold:" if cold else ""
     try:
-        schema = G.build(case)
+        if schema is None:
+            schema = G.build(case)
+        out.append(schema)
     except Exception as e:              # noqa: BLE001
         run.count(f"build_error:{type(e).__name__}")
         run.case(key, False)
@@ -689,6 +767,9 @@ def one_case(run, case, hseed, n, verbose=False, limit=None, cold=False):
         else:
             draws, exc = draw_strategy(schema, case, hseed, n, limit)
     brief = {"case": case, "hseed": hseed, "n": n, "cold": cold}
+    if prelude:
+        # what was executed in this process right before (replay repeats it)
+        brief["prelude"] = prelude
     count_case_classes(run, case, P + "gen:")
     sample = {"family": fam, "kind": case["kind"], "size": case["size"],
               "api": case["mode"], "draws": len(draws), "fresh_interpreter": cold,
@@ -698,6 +779,7 @@ def one_case(run, case, hseed, n, verbose=False, limit=None, cold=False):
                          for f in all_fields(case)],
               "first_draw": show(draws[0]) if draws else None}
     timed_out = isinstance(exc, CaseTimeLimit)
+    LAST.update(draws=0 if timed_out else len(draws))
 
     if fam != "sat":
         # the schema has no model of the requested size: only a report is admissible
@@ -815,14 +897,21 @@ def run(run, ctx):
         rng = ctx.rng(PID, i)
         if i < n_cases:
             case = G.gen_case(rng)
-            one_case(run, case, rng.getrandbits(32), n_draws, limit=TIME_LIMIT[ctx.tier])
+            seq = [case] + G.gen_followers(rng, case)
+            if len(seq) > 1:
+                run.count(f"sequences:{seq[1]['follows']}")
+            run_sequence(run, seq, [rng.getrandbits(32) for _ in seq], n_draws,
+                         limit=TIME_LIMIT[ctx.tier])
         elif i < n_cases + n_cold:
             case = G.gen_cold_case(rng, i - n_cases)
             cold_case(run, case, rng.getrandbits(32), n_draws)
         else:
             run.count("directed_corpus_cases")
-            one_case(run, directed[i - n_cases - n_cold], rng.getrandbits(32), n_draws,
-                     limit=TIME_LIMIT[ctx.tier])
+            seq = directed[i - n_cases - n_cold]
+            seq = seq if isinstance(seq, list) else [seq]
+            seq = [seq[0]] + [dict(c, follows="params") for c in seq[1:]]
+            run_sequence(run, seq, [rng.getrandbits(32) for _ in seq], n_draws,
+                         limit=TIME_LIMIT[ctx.tier])
 
 
 def cold_case(run, case, hseed, n, verbose=False):
@@ -874,8 +963,19 @@ FLOORS_QUICK = {
     "judged:with_index:single": 6, "judged:with_index:multi": 2,
     "judged:chain_len:1": 40, "judged:chain_len:2": 40, "judged:chain_len:3": 20,
     "distinct_ordered_check_pairs_judged": 50,
-    "dtypes_judged": len(G.ALL_DTYPES) - 2, "directed_corpus_cases": 18,
+    "dtypes_judged": len(G.ALL_DTYPES) - 2, "directed_corpus_cases": 26,
     "sizes_judged": 7,
+    # classes added for the order of the strategy's steps, state carried from
+    # one schema's strategy to the next, and falsy / foreign-typed arguments
+    "judged:aggregate_over_nullable_field": 10,
+    "judged:aggregate_over_nullable_series_or_column": 4,
+    "judged:aggregate_over_nullable_frame_or_index": 4,
+    "judged:df_check:c_dfaggn": 1,
+    "judged:bound_on_zero:int": 8, "judged:bound_on_zero:float": 3,
+    "judged:bound_on_zero:time": 2,
+    "judged:follower:params": 10, "judged:follower:resize": 3,
+    "judged:factory_check_with_strategy": 14,
+    "judged:time_argument_not_pandas": 5,
 }
 
 
@@ -884,6 +984,17 @@ def finalize(run, ctx):
     c["distinct_ordered_check_pairs_judged"] = sum(1 for k in c if k.startswith("order:"))
     c["dtypes_judged"] = sum(1 for d in G.ALL_DTYPES if c.get(f"judged:dtype:{d}", 0) > 0)
     c["sizes_judged"] = sum(1 for z in G.SIZES if c.get(f"judged:size:{z}", 0) > 0)
+    agg = "judged:aggregate_over_nullable_field:"
+    c["judged:aggregate_over_nullable_series_or_column"] = (
+        c.get(agg + "series", 0) + c.get(agg + "column", 0))
+    c["judged:aggregate_over_nullable_frame_or_index"] = (
+        c.get(agg + "frame", 0) + c.get(agg + "index", 0) + c.get(agg + "multiindex", 0))
+    c["judged:bound_on_zero:time"] = (c.get("judged:bound_on_zero:dt", 0)
+                                      + c.get("judged:bound_on_zero:td", 0))
+    c["judged:factory_check_with_strategy"] = sum(
+        v for k, v in c.items() if k.startswith("judged:factory_check_with_strategy:"))
+    c["judged:time_argument_not_pandas"] = sum(
+        v for k, v in c.items() if k.startswith("judged:time_argument_given_as:"))
     mult = 1 if ctx.tier == "quick" else 8
     for name, m in FLOORS_QUICK.items():
         run.floors[name] = m if name in ("dtypes_judged", "sizes_judged",
@@ -904,7 +1015,9 @@ def replay(path):
         cold_case(r, case, w["hseed"], w["n"], verbose=True)
     else:
         prewarm()
-        one_case(r, case, w["hseed"], w["n"], verbose=True)
+        pre = w.get("prelude") or []
+        run_sequence(new_run(), [c for c, _ in pre] + [case], [h for _, h in pre] + [w["hseed"]],
+                     w["n"], verbose=True, replaying=r)
     for v in r.violations:
         print("mechanism:", v["mechanism"], "kind:", v["kind"])
     print("counters:", {k: v for k, v in r.counters.items()
